@@ -123,13 +123,22 @@ fn make_event(m: &sim::Model, inv: &crate::maps::Inv, rng: &mut Rng, kind: u64, 
             "two TRG banks"
         }
         10 => {
-            // a PWB chunk present twice with different, individually valid content
-            let k = banks.iter().position(|b| b.0.starts_with("PC")).unwrap();
+            // a PWB chunk present twice with different, individually valid content: the copy of the chunk that carries
+            // the strongest pad signal, with every pulse sample (|s - 1725| > 30) scaled down, so that whichever copy
+            // "wins" changes an avalanche
+            let score = |d: &[u8]| -> i64 { d[20..d.len() - 4].chunks_exact(2).map(|c| (i16::from_le_bytes([c[0], c[1]]) as i64 - 1725).abs()).filter(|x| *x > 30 && *x < 3000).sum() };
+            let k = (0..banks.len()).filter(|k| banks[*k].0.starts_with("PC")).max_by_key(|k| score(&banks[*k].1)).unwrap();
             let c = alpha_g_detector::padwing::Chunk::try_from(&banks[k].1[..]).unwrap();
             let mut payload = c.payload().to_vec();
-            let n = payload.len();
-            for x in payload[n / 2..].iter_mut().take(40) {
-                *x = x.wrapping_add(3);
+            let start = if c.chunk_id() == 0 { 52 } else { 0 };
+            let mut j = start + (start % 2);
+            while j + 1 < payload.len() {
+                let v = i16::from_le_bytes([payload[j], payload[j + 1]]);
+                if (v as i32 - 1725).abs() > 30 && (v as i32 - 1725).abs() < 3000 {
+                    let nv = (1725 + (v as i32 - 1725) * 3 / 5) as i16;
+                    payload[j..j + 2].copy_from_slice(&nv.to_le_bytes());
+                }
+                j += 2;
             }
             let twin = crate::enc::Chunk { device_id: c.board_id().device_id(), packet_sequence: 9, channel_sequence: 9, channel_id: banks[k].1[10], flags: banks[k].1[11], chunk_id: c.chunk_id(), payload };
             let name = banks[k].0.clone();
